@@ -143,18 +143,25 @@ def coq_value(v):
     return "N", "%d%%N" % v
 
 def name_lists():
-    """string lists the models are parameterised by"""
-    out = []
-    # forbidden sidecar suffixes (C19)
+    """string lists the models are parameterised by; returns (lists, missing)"""
+    out = []; missing = []
+    # forbidden sidecar suffixes (C19): the two local arrays of ensure_single_file
+    #   let forbidden = ["-wal", ...];   let hidden_forbidden = [".wal", ...];
+    # (also accepted: a `const FORBIDDEN_SIDECAR...: [&str; N] = [...]` if the code is refactored)
     try:
         s = src("src/memvid/lifecycle.rs")
-        m = re.search(r"const\s+FORBIDDEN_SIDECAR\w*\s*:[^=]*=\s*&?\[(.*?)\];", s, re.S)
-        if m:
-            items = re.findall(r"\"([^\"]*)\"", m.group(1))
-            out.append(("FORBIDDEN_SIDECARS", items))
-    except Exception:
-        pass
-    return out
+        m = re.search(r"fn\s+ensure_single_file\b.*?\n}\n", s, re.S)
+        body = m.group(0) if m else ""
+        for coqname, var in (("FORBIDDEN_SIDECAR_SUFFIXES", "forbidden"), ("HIDDEN_FORBIDDEN_SIDECAR_SUFFIXES", "hidden_forbidden")):
+            mm = re.search(r"let\s+" + var + r"\s*(?::[^=]*)?=\s*&?\[(.*?)\]\s*;", body, re.S) or \
+                 re.search(r"(?:const|static)\s+" + var.upper() + r"\w*\s*:[^=]*=\s*&?\[(.*?)\]\s*;", s, re.S)
+            if mm:
+                out.append((coqname, re.findall(r"\"([^\"]*)\"", mm.group(1))))
+            else:
+                missing.append((coqname, "src/memvid/lifecycle.rs", var, "array not found in ensure_single_file"))
+    except Exception as ex:
+        missing.append(("FORBIDDEN_SIDECAR_SUFFIXES", "src/memvid/lifecycle.rs", "forbidden", repr(ex)))
+    return out, missing
 
 def generate():
     lines = ["(* GENERATED by tools/translate.py from /repo's source on every check run. DO NOT EDIT. *)",
@@ -169,7 +176,9 @@ def generate():
             values[coqname] = v if not isinstance(v, Fraction) else [v.numerator, v.denominator]
         except Exception as ex:
             missing.append((coqname, path, rname, repr(ex)))
-    for nm, items in name_lists():
+    lists, lmissing = name_lists()
+    missing += lmissing
+    for nm, items in lists:
         lines.append("Definition %s : list string := [%s]%%string." % (nm, "; ".join('"%s"' % x for x in items)))
     return "\n".join(lines) + "\n", missing, values
 
